@@ -131,7 +131,7 @@ def alphabet(c, extra=(), values=("v", "w"), with_noise=True, max_tokens=26):
         for t in spellings(a, infer):
             add(t)
         if a["delim"]:
-            add(b("a") + [a["delim"]] + b("b"))
+            add(b("a") + b(chr(a["delim"])) + b("b"))
         if a["term"]:
             add(a["term"])
         if a["vp"]["k"] == "int":
@@ -241,6 +241,10 @@ def f_core():
     add("pos-multi-then-last", cmd("p", [arg("first", num=(1, None)), arg("rest", num=(1, None), last=True), arg("f", "f", action="SetTrue")]))
     add("negative-numbers", cmd("p", [arg("nums", num=(1, None), negnum=True), arg("v", "v", action="SetTrue"),
                                       arg("offs", "o", "offsets", num=(1, None), negnum=True)]), extra=["-1", "-2", "1"])
+    add("delim-multibyte", cmd("p", [arg("o", "o", "opt", delim="\u3001", action="Append"), arg("p1", num=(0, None), delim="\U0001F600")]),
+        extra=["a\u3001b", "--opt=x\u3001y", "c\U0001F600d", "\u3001"])
+    add("missing-delim-dont-trailing", cmd("p", [arg("o", "o", "opt", num=(0, None), delim=",", missing=["a,b"]), arg("p1", num=(0, None), delim=",")],
+                                           dont_delimit_trailing_values=True), extra=["c,d", "--opt=c,d"])
     add("delim-multi-escape", cmd("p", [arg("p1", num=(1, None), delim=","), arg("f", "f", action="SetTrue")]), extra=["a,b", "c,d"])
     add("pos-tva", cmd("p", [arg("p1"), arg("rest", num=(1, None), tva=True), arg("f", "f", "flag", action="SetTrue")]))
     add("pos-low-index-multi", cmd("p", [arg("files", num=(1, None), required=True), arg("target", required=True), arg("f", "f", action="SetTrue")]))
@@ -450,6 +454,10 @@ def f_relx():
         extra=["--aa=k", "--bb=k", "--cc=k", "--aa=z", "--bb=z"], values=())
     add("required_if_eq ignore_case", cmd("p", [arg("m", "m", "mode", ignore_case=True), arg("x", "x", "xx", action="SetTrue", req_if_eq=[("m", "special")])]),
         extra=["--mode=SPECIAL", "--mode=special", "--mode=other"], values=())
+    add("required_if_eq ignore_case on OsString", cmd("p", [arg("m", "m", "mode", ignore_case=True, vp=vp_kind("os")),
+                                                            arg("x", "x", "xx", action="SetTrue", req_if_eq=[("m", "special")]),
+                                                            arg("y", "y", "yy", action="SetTrue", requires_ifs=[])]),
+        extra=["--mode=SPECIAL", "--mode=special", b"--mode=s\xffp", b"--mode=\xffspecial", "--mode=other"], values=())
     add("required_unless all/any", cmd("p", [arg("a", "a", action="SetTrue"), arg("b", "b", action="SetTrue"),
                                              arg("x", "x", action="SetTrue", req_unless_all=["a", "b"]), arg("y", "y", action="SetTrue", req_unless=["a", "b"])]), values=())
     add("group requires + conflicts via env", cmd("p", [arg("a", "a", "aa", env="e"), arg("b", "b", "bb", action="SetTrue"), arg("c", "c", "cc", action="SetTrue", conflicts=["g"]),
@@ -550,6 +558,11 @@ def f_tree():
     add("infer-subcommand-alias", cmd("p", [arg("f", "f", action="SetTrue")],
                                       subs=[cmd("remove", [arg("x", "x", "force", action="SetTrue")], aliases=["delete"]), cmd("rename")],
                                       infer_subcommands=True), extra=["delete", "del", "d", "rem", "re", "--force", "-x"])
+    # global settings reach every depth
+    deep = cmd("deep", [arg("vals", num=(0, None), delim=","), arg("long-name", None, "long-name", action="SetTrue")], subs=[cmd("deeper", [arg("w", "w", "wide", action="SetTrue")])])
+    add("global-settings-depth-2", cmd("p", [arg("t", "t", action="SetTrue")], subs=[cmd("mid", [arg("m", "m", "mm", action="SetTrue")], subs=[deep])],
+                                       dont_delimit_trailing_values=True, infer_long_args=True, infer_subcommands=True, disable_help_subcommand=True),
+        extra=["mid", "deep", "a,b", "--long", "--", "dee", "deeper", "--wi", "help"])
     # what becomes of argv[0]
     applets = [cmd("true"), cmd("ls", [arg("l", "l", "long", action="SetTrue"), arg("path", num=(0, None))], aliases=["dir"]),
                cmd("box", subs=[cmd("inner", [arg("i", "i", action="SetTrue")])])]
